@@ -312,6 +312,16 @@ def gen_histories(rng, tier):
             elif k == "revert": ugly = prev_ugly
             elif k == "settime": ugly = True
         hist.append((cfg, seq))
+    # recorded histories whose class count changes between two records (both directions), then a load inside, before and after that
+    # interval: record k is taken by the k-th update (logical time k)
+    changes = [dict(op="change", a=Fr(0), b=Fr(6), n=2, reset=False), dict(op="change", a=Fr(0), b=Fr(12), n=3, reset=False),
+               dict(op="change", a=Fr(0), b=Fr(20), n=4, reset=True), dict(op="add", k=1), dict(op="add", k=2), dict(op="reset", rb=True)]
+    for cfg in CONFIGS[:3]:
+        for ch in changes:
+            for p1, p2 in ((4, 3), (3, 6)):
+                for t in (Fr(1, 2), Fr(1), Fr(5, 4), Fr(3, 2), Fr(2), Fr(100)):
+                    hist.append((cfg, [dict(op="recon"), dict(op="update", p=p1), dict(ch), dict(op="update", p=p2), dict(op="settime", t=t)]))
+                hist.append((cfg, [dict(op="recon"), dict(op="update", p=p1), dict(ch), dict(op="update", p=p2), dict(op="settime", t=Fr(3, 2)), dict(op="add", k=1)]))
     # recording life cycle: every order of three recording operations followed by a query, on every configuration
     # (regression: enable, remove, query raised TypeError before fix 038111f)
     import itertools
